@@ -574,15 +574,19 @@ func c13Decide(c *core.Ctx) {
 			const aH0, aHpos, aErr = "(i.PendingCert.Height == const(0))", "(i.PendingCert.Height > const(0))", "(agglayer/types.CertificateStatus).IsInError(i.PendingCert.Status)"
 			forced := map[string]bool{aH0: false, aHpos: true, aErr: false}
 			var witness []string
+			var path []int
 			var dfs func(b *ssa.BasicBlock, lits map[string]bool, depth int) bool
 			dfs = func(b *ssa.BasicBlock, lits map[string]bool, depth int) bool {
 				if depth > 80 {
 					return false
 				}
+				path = append(path, b.Index)
+				defer func() { path = path[:len(path)-1] }()
 				last := b.Instrs[len(b.Instrs)-1]
 				switch x := last.(type) {
 				case *ssa.Return:
-					if len(x.Results) == 2 && isNilConst(x.Results[1]) {
+					// the error returned on THIS path (results of expanded helpers travel through Phis)
+					if len(x.Results) == 2 && isNilConst(core.ResolveOnPath(x.Results[1], path)) {
 						for k, v := range lits {
 							witness = append(witness, fmt.Sprintf("%s=%v", k, v))
 						}
@@ -592,9 +596,15 @@ func c13Decide(c *core.Ctx) {
 					return false
 				case *ssa.If:
 					cond, pos := core.CondOf(x.Cond)
+					// a flag that is a Phi of constants (the `decided` result of an expanded helper) has the value of the
+					// edge this path came through
+					resolved := core.ResolveOnPath(cond, path)
 					atom := sx.Of(cond).String()
 					for si, succ := range b.Succs {
 						val := (si == 0) == pos
+						if isConstBool(resolved, true) && !val || isConstBool(resolved, false) && val {
+							continue
+						}
 						if f, ok := forced[atom]; ok && f != val {
 							continue
 						}
